@@ -51,6 +51,15 @@ TEMPLATES = {
     # named blocks of a translation: the mapping reaches the translation function in one order in every process
     "namesorder": '<p i18n:translate="">A <b i18n:name="zeta">${x}</b> B <i i18n:name="alpha">1</i> C <u i18n:name="mid_1">2</u> '
                   'D <s i18n:name="beta9">3</s> E <em i18n:name="omega">4</em></p>',
+    # collections of names inside the compiler (attributes named only in i18n:attributes, several dynamic attributes,
+    # declarations, slots, macros): their order in the output is the document's, in every process
+    "i18nattrs": '<img src="x" i18n:attributes="title; alt; longdesc; summary; label; accesskey" />'
+                 '<a title="T" alt="A" lang="l" i18n:attributes="lang; alt l-id; title; name; rel" tal:attributes="rev x; rel x; type x">k</a>',
+    "manynames": '<input a="1" b="2" c="3" zeta="4" tal:attributes="z x; y x; w x; checked x; b x; alpha x; m x" xmlns:q="urn:q" xmlns:p="urn:p" '
+                 'xmlns:o="urn:o" q:r="1" p:r="2" o:r="3" /><b tal:define="a1 1; zz 2; m3 3; b4 4; k5 5">${a1}${zz}${m3}${b4}${k5}</b>'
+                 '<u metal:define-macro="one">1<i metal:define-slot="s1">a</i><i metal:define-slot="zz">b</i><i metal:define-slot="m">c</i></u>'
+                 '<u metal:define-macro="two">2</u><u metal:define-macro="aaa">3</u>${list(template.macros.names)}'
+                 '<v metal:use-macro="template.macros[\'one\']"><w metal:fill-slot="zz">${x}</w><w metal:fill-slot="m">M</w><w metal:fill-slot="s1">S</w></v>',
 }
 TRANSLATE_SRC = ("def translate(msgid, domain=None, mapping=None, context=None, target_language=None, default=None):\n"
                  "    text = default if default is not None else str(msgid)\n"
@@ -58,7 +67,14 @@ TRANSLATE_SRC = ("def translate(msgid, domain=None, mapping=None, context=None, 
                  "        text = '[' + ','.join(mapping) + ']' + text\n"
                  "        for k, v in mapping.items():\n"
                  "            text = text.replace('${%s}' % k, str(v))\n"
-                 "    return text\n")
+                 "    return text\n"
+                 # render-time options are arguments too: every argument set brings its own translation function (and
+                 # encoding / target language); what a call returns depends on ITS arguments only
+                 "def mk(tag):\n"
+                 "    def tr(msgid, domain=None, mapping=None, context=None, target_language=None, default=None):\n"
+                 "        return tag + str(target_language) + ':' + translate(msgid, domain, mapping, context, target_language, default)\n"
+                 "    return tr\n"
+                 "RKW = [{}, {'translate': mk('<1>'), 'encoding': 'utf-8'}, {'translate': mk('<2>'), 'encoding': 'utf-8', 'target_language': 'de'}]\n")
 exec(TRANSLATE_SRC)
 ARGS = [
     {"x": "<one>", "y": [1, 2], "d": {"b": "2", "a": "1"}, "s": {"p", "q"}},
@@ -93,7 +109,7 @@ def history_part(ctx, quick):
             "for name, src in j['templates'].items():\n"
             "    for n, a in enumerate(j['args']):\n"
             "        a = dict(a); a['s'] = set(a['s'])\n"
-            "        try: out['%s/%d' % (name, n)] = PageTemplate(src, translate=translate)(**a)\n"
+            "        try: out['%s/%d' % (name, n)] = PageTemplate(src, translate=translate)(**a, **RKW[n])\n"
             "        except Exception as e: out['%s/%d' % (name, n)] = 'EXC ' + type(e).__name__\n"
             "print(json.dumps(out))\n")
     for seed in ("1", "12345"):
@@ -115,7 +131,7 @@ def history_part(ctx, quick):
                 a = copy.deepcopy(ARGS[call["a"] - 1])
                 before = copy.deepcopy(a)
                 try:
-                    got = insts[call["i"]](**a)
+                    got = insts[call["i"]](**a, **RKW[call["a"] - 1])
                 except Exception as e:
                     got = "EXC " + type(e).__name__
                 n += 1
